@@ -47,6 +47,20 @@ class World:
             self.phase_log.append(("renegotiated", ez.ezsp_version, type(ez._protocol).VERSION, len(self.sw.ncp.first_after_reset) - n_first))
             await ez.write_config({})
             self.phase_log.append("reconfigured")
+            if self.p.get("reuse"):
+                # the same EZSP object is closed and connected again (close() forgets the gateway, connect() accepts exactly that
+                # state): the reset of the new connection falls back to the legacy format and negotiation is repeated
+                ez.close()
+                try:
+                    await ez.connect(use_thread=False)
+                except Exception as e:  # noqa -- an EZSP object that refuses to be connected twice is not this property's business
+                    self.phase_log.append(("reuse-refused", type(e).__name__))
+                    return
+                n_first = len(self.sw.ncp.first_after_reset)
+                await ez.startup_reset()
+                self.phase_log.append(("renegotiated", ez.ezsp_version, type(ez._protocol).VERSION, len(self.sw.ncp.first_after_reset) - n_first))
+                await ez.write_config({})
+                self.phase_log.append("reused-and-configured")
         except BaseException as e:  # noqa
             self.phase_log.append(("exception", type(e).__name__, str(e)[:80]))
             if isinstance(e, asyncio.CancelledError):
@@ -84,7 +98,8 @@ class World:
             out.append((("T", "host"), 0))
         else:
             out.append((("end",), 0))
-        if self.steps < 3000 and not self.task.done():
+        # (the phases before the re-use are covered with faults by the configurations without it)
+        if self.steps < 3000 and not self.task.done() and (not self.p.get("reuse") or "reconfigured" in self.phase_log):
             for line, q in (("h2n", sw.h2n), ("n2h", sw.n2h)):
                 if q:
                     for f in ("drop", "corrupt", "dup") + (("dup2",) if line == "n2h" else ()):
@@ -161,18 +176,19 @@ class World:
             want_table = V if V in ezspenv.VERSIONS else 14
             if x[2] != want_table:
                 self.viol.append(f"command tables of v{x[2]} in use for NCP version {V}, expected v{want_table}")
-        if "reconfigured" not in log:
+        reused = self.p.get("reuse") and not any(isinstance(x, tuple) and x[0] == "reuse-refused" for x in log)
+        if "reconfigured" not in log or (reused and "reused-and-configured" not in log):
             self.viol.append(f"bring-up ended early: {log}")
         # when V differs from 4 a second version query in V's own layout must follow each legacy one
         if V != 4:
             own = [r for r in ncp.requests if r[2] == "version" and r[1] == "own"]
-            if len(own) < 2:
+            if len(own) < (3 if reused else 2):
                 self.viol.append(f"expected a confirming version({V}) query in the v{V} layout after each negotiation, saw {len(own)}")
             for r in own:
                 if r[3]["desiredProtocolVersion"] != (V & 0xFF):
                     self.viol.append(f"confirming version query asked for {r[3]['desiredProtocolVersion']}, expected {V}")
-        if len(ncp.first_after_reset) < 2:
-            self.viol.append(f"expected two resets of the NCP, saw {len(ncp.first_after_reset)}")
+        if len(ncp.first_after_reset) < (3 if reused else 2):
+            self.viol.append(f"expected {3 if reused else 2} resets of the NCP, saw {len(ncp.first_after_reset)}")
 
     def done(self):
         return self.ended
@@ -245,6 +261,8 @@ def param_list(tier):
             out.append({"version": v, "path": "socket://host:1", "spontaneous": None})
             out.append({"version": v, "path": "socket://host:1", "spontaneous": "late"})
             out.append({"version": v, "path": "/dev/ttyFAKE", "spontaneous": "early"})
+        if tier != "quick" or v in (4, 8, 15):
+            out.append({"version": v, "path": "/dev/ttyFAKE", "spontaneous": None, "reuse": True})
     return out
 
 
